@@ -52,7 +52,7 @@ ACTIONS = {"R": ("r", action.R), "W": ("w", action.W), "RW": ("rw", action.RW), 
 
 
 def n_cases(tier):
-    return 240 if tier == "quick" else 3600
+    return 900 if tier == "quick" else 12000
 
 
 def gen_leaf(rng, allowed):
